@@ -20,7 +20,7 @@ NO_BODY_METHODS = {"GET", "HEAD", "DELETE", "TRACE", "OPTIONS", "CONNECT"}
 KINDS = ["textfile-readline", "textfile-next", "textfile-read3", "textfile-readline-big", "none", "bytes", "bytearray", "memoryview", "array", "array-H", "memoryview-I", "str", "str-nonascii", "bytesio", "stringio", "binfile", "binfile-offset", "binfile-eof", "textfile", "readonly", "tell-raises", "unseekable", "generator", "list", "list-empties", "iter-str", "tuple-bytes", "shortreads", "shortreads-raw"]
 ONE_SHOT = {"generator", "readonly"}
 METHODS = ["GET", "HEAD", "DELETE", "OPTIONS", "POST", "PUT", "PATCH", "QUERY"]
-HISTORIES = ["ok", "reset-ok", "eof-ok", "503-ok", "307-ok", "308-ok", "301-ok", "303-ok", "503-307-ok", "sendreset0-ok", "sendreset1-ok", "503-503-ok", "307-307-ok"]
+HISTORIES = ["early503-ok", "early307-ok", "early503-early307-ok", "ok", "reset-ok", "eof-ok", "503-ok", "307-ok", "308-ok", "301-ok", "303-ok", "503-307-ok", "sendreset0-ok", "sendreset1-ok", "503-503-ok", "307-307-ok"]
 
 
 def content(n: int, text: bool = False) -> bytes:
@@ -206,6 +206,10 @@ def history_outcomes(h: str) -> list[dict[str, typing.Any]]:
             out.append({"k": "send", "err": "ECONNRESET", "at": int(step[-1])})
         elif step == "503":
             out.append({"k": "resp", "status": 503, "body": "busy"})
+        elif step.startswith("early"):
+            # answered (and closed) after the head, while the body is still being written: early503 / early307
+            st_ = int(step[5:])
+            out.append({"k": "early", "status": st_, "headers": [["Retry-After", "0"]] if st_ == 503 else [["Location", "/next?hop=1"]], "at": 2 if step.endswith("x") else 1, "err": "EPIPE"})
         else:
             out.append({"k": "resp", "status": int(step), "headers": [["Location", "/next?hop=1"]], "body": "moved"})
     return out
@@ -283,15 +287,26 @@ def run_case(rec: Recorder, kind: str, size: int, method: str, chunked: bool, hi
                 return
             rec.mon("payload_equal")
             if r1.body != want:
-                rec.fail(case, "payload-differs", dict(obs, got=len(r1.body), want=len(want), attempt=1), f"attempt 1 carried {len(r1.body)} bytes, body has {len(want)}; first bytes {r1.body[:40]!r} vs {want[:40]!r}")
+                early_before = sum(1 for l in script.log if l["via"] == "early-response")
+                rec.fail(case, "payload-differs", dict(obs, got=len(r1.body), want=len(want), attempt=1, after_early_response=early_before > 0, is_suffix=want.endswith(r1.body)), f"first complete request carried {len(r1.body)} bytes, body has {len(want)}; first bytes {r1.body[:40]!r} vs {want[:40]!r}")
                 return
             if te and any(len(c) == 0 for c in r1.chunks):
                 rec.fail(case, "empty-chunk-inside-body", obs, "zero-length chunk inside the body")
                 return
     # --- later attempts ---
     fired_sends = sum(1 for l in script.log if l["via"] == "send")
-    steps = [st for st in hist.split("-") if not st.startswith("sendreset")]
-    expect_n = len(steps)
+    fired_early = sum(1 for l in script.log if l["via"] == "early-response")
+    # the steps that produced a complete request on the wire, in order (a send fault or an answer that came before the
+    # body was written leaves no complete request behind)
+    steps = []
+    for l in script.log:
+        if l["via"] != "request":
+            continue
+        o_ = l["outcome"]
+        steps.append(o_["err"] if o_["k"] == "recv" else ("ok" if int(o_.get("status", 200)) == 200 else str(o_.get("status"))))
+    expect_n = len([st for st in hist.split("-") if not st.startswith("sendreset")]) - fired_early
+    if fired_early:
+        rec.count("early_response_fired", fired_early)
     if fired_sends:
         rec.count("send_fault_fired")
     unrewindable_raised = isinstance(exc, UnrewindableBodyError)
@@ -325,7 +340,7 @@ def run_case(rec: Recorder, kind: str, size: int, method: str, chunked: bool, hi
         return
     if unrewindable_raised:
         rec.count("unrewindable_raised")
-        if not reqs and not fired_sends and not partial:
+        if not reqs and not fired_sends and not partial and not fired_early:
             # nothing was sent yet, so nothing had to be sent again: a body that cannot be rewound can still be sent once
             rec.fail(case, "unrewindable-before-first-attempt", obs, f"UnrewindableBodyError before any request was written (body kind {kind})")
             return
